@@ -30,3 +30,10 @@ Definition run (inp : Z * list (Z * Z)) : V :=
   VL [VL (map (fun c => match cid c with Some id => VN id | None => VZ (-1) end) (chans s));
       VL (map VN (rev (assigned s)));
       VL (map VN (sort_dedup (used s)))].
+
+(* concurrent allocators: the ids handed out (ascending, as the model hands
+   them out) and the set of ids in use *)
+Definition run_set (inp : Z * list (Z * Z)) : V :=
+  let (m, ops) := inp in
+  let s := srun (sinit (Z.to_N m)) (map op_of ops) in
+  VL [VL (map VN (rev (assigned s))); VL (map VN (sort_dedup (used s)))].
